@@ -26,6 +26,7 @@ type IterCtx struct {
 	delSeen  map[string][]uint64 // delivered deletions per primary key
 	lastRev  uint64
 	lastIdx  int // chain index of the last snapshot passed to Next (monotone)
+	refIdx   int // chain index of the snapshot of the last refresh (a Next that reported pending changes, or creation)
 	nexts    int
 	caughtUp bool // the last Next returned an open channel
 }
@@ -46,7 +47,7 @@ func (w *World) createIterator(t *simcore.Task, wt *WTxn, ti int) bool {
 		w.violate("C07", "changes-error", "Changes(%s) in T%d: %v", tc.M.Name, wt.id, err)
 		return false
 	}
-	ic := &IterCtx{id: len(w.iters) + len(wt.newIters) + wt.id*100, it: it, ti: ti, createRev: st.Rev, view: map[string]MObj{}, delSeen: map[string][]uint64{}}
+	ic := &IterCtx{id: len(w.iters) + len(wt.newIters) + wt.id*100, it: it, ti: ti, createRev: st.Rev, view: map[string]MObj{}, delSeen: map[string][]uint64{}, refIdx: wt.base[ti].Idx}
 	st.Trackers++
 	wt.newIters = append(wt.newIters, ic)
 	w.allIters = append(w.allIters, ic)
@@ -72,6 +73,9 @@ func (w *World) nextOn(ic *IterCtx, txn statedb.ReadTxn, X *TableState, limit in
 		return nil, false
 	}
 	pending := isClosed(watch)
+	if pending {
+		ic.refIdx = X.Idx
+	}
 	n := 0
 	full := true
 	failed := false
@@ -143,18 +147,23 @@ func (w *World) nextOn(ic *IterCtx, txn statedb.ReadTxn, X *TableState, limit in
 	if !pending {
 		// (f) open channel: nothing delivered, and the replay equals the table's current committed state
 		ic.caughtUp = true
-		matched := -1
-		for j := len(tc.M.Chain) - 1; j >= tc.M.MinVis; j-- {
-			if w.viewEquals(ic, tc.M.Chain[j]) {
-				matched = j
-				break
-			}
-		}
-		if matched < 0 {
-			w.violate("C07", "open-channel-behind", "I%d Next(%s) returned an open watch channel but what was delivered so far (%s) differs from the table's committed state (%s): the consumer would wait without ever receiving the difference",
-				ic.id, what, fmtView(ic.view), fmtRes(evalAll(tc.M.last())))
+		// The channel is the one of the last refresh. Everything up to that snapshot was delivered...
+		ref := tc.M.Chain[ic.refIdx]
+		if !w.viewEquals(ic, ref) {
+			w.violate("C07", "open-channel-behind", "I%d Next(%s) returned an open watch channel but what was delivered so far (%s) differs from the snapshot of its last refresh (table version %d: %s): the consumer would wait without ever receiving the difference",
+				ic.id, what, fmtView(ic.view), ref.Idx, fmtRes(evalAll(ref)))
 			return nil, false
 		}
+		// ... and no commit that changed the table has been published and notified since: otherwise
+		// the consumer would wait on a channel that nothing will close.
+		for j := ic.refIdx + 1; j < len(tc.M.Chain); j++ {
+			if tc.M.Chain[j].Returned && tc.M.Chain[j].Rev != ref.Rev {
+				w.violate("C07", "open-channel-stale", "I%d Next(%s) returned an open watch channel from table version %d (revision %d) although the commit producing version %d (revision %d) has already returned",
+					ic.id, what, ref.Idx, ref.Rev, j, tc.M.Chain[j].Rev)
+				return nil, false
+			}
+		}
+		matched := ic.refIdx
 		w.probe("iterator-caught-up")
 		// the channel must close at the next commit that changes the table
 		w.addWatch(&Watch{ch: watch, ti: ic.ti, kind: "iter", stIdx: matched, snapRev: tc.M.Chain[matched].Rev, q: Query{Q: QAll}})
@@ -281,6 +290,9 @@ func (w *World) consumerTask(t *simcore.Task) {
 						return
 					}
 				}
+				if wt.finished {
+					continue
+				}
 				if !w.createIterator(t, wt, ti) {
 					return
 				}
@@ -326,6 +338,9 @@ func (w *World) consumerTask(t *simcore.Task) {
 				if !w.writeOpKind(t, wt, k) {
 					return
 				}
+			}
+			if wt.finished {
+				continue
 			}
 			w.probe("next-with-writetxn-on-table")
 			openCh, ok = w.nextOn(ic, wt.txn, wt.base[ic.ti], limit, fmt.Sprintf("WriteTxn T%d on the table", wt.id))
@@ -378,6 +393,9 @@ func (w *World) consumerTask(t *simcore.Task) {
 			}
 			if !w.writeOpKind(t, wt, []int{OpInsert, OpDelete}[c.Choose(2)]) {
 				return
+			}
+			if wt.finished {
+				continue
 			}
 			rtxn, sn := w.commitRet(t, wt)
 			if w.S.Failed() || sn == nil {
